@@ -9,18 +9,21 @@ import LiquerModel.EvalO
 
 namespace Liquer
 
-/-- pre-emption points: a thread can be pre-empted before every `get`, `store` and `remove`; the progress-metadata writes
-(`store_metadata`) that follow such an operation are performed together with it (where and what an evaluation reports as
-progress is not an observable of C12; the writes themselves are applied to the shared cache in program order) -/
+/-- A thread's own steps are its `get`, `store` and `remove` operations.  Progress-metadata writes (`store_metadata`) are not
+thread steps of this model: *any* metadata-only write by *anyone* at *any* time is an environment step (`EnvOp`), so where
+and what an evaluation reports as progress need not be predicted — the theorems hold whatever is written (a metadata-only write
+never creates data).  The harness replays the implementation's actual `store_metadata` calls as environment steps. -/
 def COp.isMeta : COp → Bool
   | .storeMeta _ _ => true
   | _ => false
+
+def ownOps (tr : List COp) : List COp := tr.filter (fun o => !o.isMeta)
 
 structure Thread where
   q : Query
   raw : Str
   answers : List (Option EState) := []
-  done : Nat := 0                      -- cache operations of the trace already performed on the shared cache
+  done : Nat := 0                      -- own operations already performed on the shared cache
   result : Option Outcome := none
   calls : List Str := []
 
@@ -30,27 +33,22 @@ def Thread.run (env : Env) (t : Thread) : OW × Outcome :=
 
 def Thread.finished (t : Thread) : Bool := t.result.isSome
 
-/-- one cache operation of a thread on the shared cache: a `get` records the shared cache's answer, writes are applied -/
+/-- one cache operation on the shared cache: a `get` records the shared cache's answer, writes are applied -/
 def applyOp (acc : World × List (Option EState)) : COp → World × List (Option EState)
   | .get k => (acc.1, acc.2 ++ [acc.1.get k])
   | .storeMeta k s => (acc.1.storeMeta k s, acc.2)
   | .store st => (acc.1.store st, acc.2)
   | .remove k => (acc.1.remove k, acc.2)
 
-/-- perform the progress writes the thread issues next (up to its next pre-emption point) -/
-def flushMetas (env : Env) (shared : World) (t : Thread) : World × Thread :=
-  let metas := ((t.run env).1.trace.drop t.done).takeWhile COp.isMeta
-  ((metas.foldl applyOp (shared, t.answers)).1, { t with done := t.done + metas.length })
-
-/-- one step of thread `t` on the shared cache: the operation at its pre-emption point and the progress writes after it -/
+/-- one step of thread `t` on the shared cache: its next own operation (or, when none is left, it finishes) -/
 def stepThread (env : Env) (shared : World) (t : Thread) : World × Thread :=
   if t.finished then (shared, t) else
   let (ow, out) := t.run env
-  match ow.trace[t.done]? with
+  match (ownOps ow.trace)[t.done]? with
   | none => (shared, { t with result := some out, calls := ow.calls })
   | some op =>
     let (w, ans) := applyOp (shared, t.answers) op
-    flushMetas env w { t with answers := ans, done := t.done + 1 }
+    (w, { t with answers := ans, done := t.done + 1 })
 
 structure Config where
   shared : World
@@ -63,18 +61,25 @@ def stepAt (env : Env) (c : Config) (i : Nat) : Config :=
     let (w, t') := stepThread env c.shared t
     { shared := w, threads := c.threads.set i t' }
 
-/-- every thread runs to its first pre-emption point -/
-def startAll (env : Env) (c : Config) : Config :=
-  (List.range c.threads.length).foldl (fun c i =>
-    match c.threads[i]? with
-    | none => c
-    | some t => let (w, t') := flushMetas env c.shared t; { shared := w, threads := c.threads.set i t' }) c
+/-- an environment step: somebody writes metadata (any key, any status) -/
+def envMeta (c : Config) (k status : Str) : Config := { c with shared := c.shared.storeMeta k status }
 
-/-- any thread may move -/
+/-- any thread may move, and metadata may be written at any time -/
 inductive StepAny (env : Env) : Config → Config → Prop where
   | step (c : Config) (i : Nat) (h : i < c.threads.length) : StepAny env c (stepAt env c i)
+  | env (c : Config) (k status : Str) : StepAny env c (envMeta c k status)
 
-/-- run a schedule (list of thread indices), then let the threads finish one after the other; `fuel` bounds the tail -/
+/-- a schedule: thread steps and environment steps in any order -/
+inductive Ev where
+  | thread (i : Nat)
+  | meta_ (k status : Str)
+
+def runEvents (env : Env) (c : Config) : List Ev → Config
+  | [] => c
+  | .thread i :: rest => runEvents env (stepAt env c i) rest
+  | .meta_ k st :: rest => runEvents env (envMeta c k st) rest
+
+/-- run a schedule of thread indices only -/
 def runSchedule (env : Env) (c : Config) : List Nat → Config
   | [] => c
   | i :: rest => runSchedule env (stepAt env c i) rest
